@@ -425,7 +425,10 @@ func c05Impl(pkgName string, src []byte, itfs []string) (string, error) {
 	return b.String(), nil
 }
 
-func c05Open(idlText []byte) (sess *c05Session, res string) {
+func c05Open(idlText []byte) (sess *c05Session, res string) { return c05OpenMode(idlText, true) }
+
+// c05OpenMode: with run == false only the generated package is compiled.
+func c05OpenMode(idlText []byte, run bool) (sess *c05Session, res string) {
 	sess = &c05Session{actions: map[string]*c05GoNames{}}
 	// 1. parse
 	var pkg *idl.PackageDeclaration
@@ -531,6 +534,9 @@ func c05Open(idlText []byte) (sess *c05Session, res string) {
 	if out, err := build("build", "./gen"); err != nil {
 		os.WriteFile(filepath.Join(os.Getenv("QIH_WORK"), "c05-last-build-error.txt"), []byte(out+"\n----\n"+string(idlText)+"\n----\n"+gen.String()), 0o644)
 		return sess, "build-error " + c05BuildClass(out)
+	}
+	if !run {
+		return sess, "ok"
 	}
 	// 5. implementor + driver
 	impl, err := c05Impl(pkg.Name, gen.Bytes(), itfNames)
@@ -769,6 +775,10 @@ var c05Known = []struct{ id, what, idl string }{
 	{"accessor-collision", "a method named like the accessor of a property (getLevel / level)", "package gen\ninterface A\n\tfn getLevel() -> int32\n\tprop level(v: int32)\nend\n"},
 	{"subscribe-collision", "a method named like the subscriber of a signal (subscribeTick / tick)", "package gen\ninterface A\n\tfn subscribeTick()\n\tsig tick(v: int32)\nend\n"},
 	{"method-proxy", "a method named proxy", "package gen\ninterface A\n\tfn proxy()\nend\n"},
+	{"do-collision", "a method named like the renamed form of a reserved name (subscribe / doSubscribe)", "package gen\ninterface A\n\tfn subscribe()\n\tfn doSubscribe()\nend\n"},
+	{"helper-collision", "a method named like the helper of a signal (signalTick / tick)", "package gen\ninterface A\n\tfn signalTick(a1: int32)\n\tsig tick(a1: int32)\nend\n"},
+	{"callback-collision", "a method named like the callback of a property (onLevelChange / level)", "package gen\ninterface A\n\tfn onLevelChange(a1: int32)\n\tprop level(a1: int32)\nend\n"},
+	{"struct-named-like-proxy", "a struct named like a generated type (AProxy)", "package gen\nstruct AProxy\n\ta: int32\nend\ninterface A\n\tfn f(x: AProxy)\nend\n"},
 	{"method-activate", "a method named activate", "package gen\ninterface A\n\tfn activate()\nend\n"},
 	{"map-key", "a map whose key type is not comparable in Go", "package gen\ninterface A\n\tfn f(m: Map<Vec<int32>,str>)\nend\n"},
 	{"obj-param", "a parameter of type obj", "package gen\ninterface A\n\tfn f(o: obj) -> obj\nend\n"},
@@ -778,8 +788,85 @@ var c05Known = []struct{ id, what, idl string }{
 	{"property-empty", "a property without parameter", "package gen\ninterface A\n\tprop s()\nend\n"},
 }
 
+func c05Names(w string) []string {
+	if w == "-" {
+		return nil
+	}
+	return strings.Split(w, ",")
+}
+
+func c05Join(ns []string) string {
+	if len(ns) == 0 {
+		return "-"
+	}
+	return strings.Join(ns, ",")
+}
+
+// gen.names <methods> <signals> <properties>: the Go names ForEachMethodAndSignal hands out
+func execGenNames(a []string) string {
+	var meta object.MetaObject
+	meta.Methods = map[uint32]object.MetaMethod{}
+	meta.Signals = map[uint32]object.MetaSignal{}
+	meta.Properties = map[uint32]object.MetaProperty{}
+	id := uint32(100)
+	for _, n := range c05Names(a[0]) {
+		meta.Methods[id] = object.MetaMethod{Uid: id, Name: n}
+		id++
+	}
+	for _, n := range c05Names(a[1]) {
+		meta.Signals[id] = object.MetaSignal{Uid: id, Name: n}
+		id++
+	}
+	for _, n := range c05Names(a[2]) {
+		meta.Properties[id] = object.MetaProperty{Uid: id, Name: n}
+		id++
+	}
+	var m, sg, p, px []string
+	meta.ForEachMethodAndSignal(func(_ object.MetaMethod, name string) error {
+		m = append(m, name)
+		px = append(px, signature.CleanMethodName(name))
+		return nil
+	}, func(_ object.MetaSignal, name string) error {
+		sg = append(sg, name)
+		return nil
+	}, func(_ object.MetaProperty, name string) error {
+		p = append(p, name)
+		return nil
+	})
+	return fmt.Sprintf("m:%s s:%s p:%s proxy:%s", c05Join(m), c05Join(sg), c05Join(p), c05Join(px))
+}
+
+// gen.clash <methods> <signals> <properties>: does a package with actions of these names compile?
+func execGenClash(a []string) string {
+	var b strings.Builder
+	b.WriteString("package gen\ninterface A\n")
+	for _, n := range c05Names(a[0]) {
+		fmt.Fprintf(&b, "\tfn %s()\n", n)
+	}
+	for _, n := range c05Names(a[1]) {
+		fmt.Fprintf(&b, "\tsig %s(a1: int32)\n", n)
+	}
+	for _, n := range c05Names(a[2]) {
+		fmt.Fprintf(&b, "\tprop %s(a1: int32)\n", n)
+	}
+	b.WriteString("end\n")
+	sess, res := c05OpenMode([]byte(b.String()), false)
+	sess.close()
+	if res == "ok" {
+		return "ok"
+	}
+	for _, w := range []string{"duplicate method", "redeclared", "wrong type for method", "already declared", "duplicate field"} {
+		if strings.Contains(res, w) {
+			return "clash"
+		}
+	}
+	return res
+}
+
 func init() {
 	runners["C05"] = runC05
+	executors["gen.names"] = execGenNames
+	executors["gen.clash"] = execGenClash
 	executors["gen.pkgx"] = execGenPkgx
 	executors["gen.pkg"] = execGenPkg
 	executors["gen.call"] = execGenCall
@@ -878,6 +965,48 @@ func runC05(r *Rand, tier string, o *Out) {
 		} else {
 			o.Fail("a well-formed IDL package does not yield a running proxy and stub: "+c05FailClass(res), res+" for\n"+text)
 		}
+	}
+	// the names: what ForEachMethodAndSignal hands out, and whether the declared method sets clash
+	pool := []string{"tick", "Tick", "level", "getLevel", "setLevel", "subscribeTick", "subscribeLevel", "signalTick", "updateLevel",
+		"onLevelChange", "proxy", "activate", "receive", "metaObject", "onTerminate", "withContext", "subscribe", "doSubscribe",
+		"call", "property", "stats", "run", "Run", "run_0", "tick_0", "Tick_1", "terminate", "a", "b_2"}
+	nnames, nclash := 300, 8
+	if tier == "thorough" {
+		nnames, nclash = 3000, 60
+	}
+	draw := func(max int) string {
+		n := r.Intn(max + 1)
+		var ns []string
+		for j := 0; j < n; j++ {
+			ns = append(ns, pool[r.Intn(len(pool))])
+		}
+		return c05Join(ns)
+	}
+	for i := 0; i < nnames; i++ {
+		o.Do("P", fmt.Sprintf("gen.names %s %s %s", draw(6), draw(3), draw(3)), true)
+		o.Count("name-sets")
+	}
+	for _, fixed := range []string{"getLevel - level", "subscribeTick tick -", "signalTick tick -", "updateLevel - level", "onLevelChange - level",
+		"activate - -", "subscribe,doSubscribe - -", "tick,Tick tick tick", "stats,proxy,withContext,property - -", "receive - -"} {
+		res := o.Do("X", "gen.clash "+fixed, true)
+		o.Count("clash-answer:" + res)
+	}
+	for i := 0; i < nclash; i++ {
+		// distinct names within each kind (a name declared twice in one kind is the overloading / renaming case of gen.names)
+		pick := func(max int) string {
+			seen := map[string]bool{}
+			var ns []string
+			for j := r.Intn(max + 1); j > 0; j-- {
+				n := pool[r.Intn(len(pool))]
+				if !seen[strings.ToLower(n)] {
+					seen[strings.ToLower(n)] = true
+					ns = append(ns, n)
+				}
+			}
+			return c05Join(ns)
+		}
+		res := o.Do("X", fmt.Sprintf("gen.clash %s %s %s", pick(3), pick(2), pick(2)), true)
+		o.Count("clash-answer:" + res)
 	}
 	corpus := c05Corpus()
 	for i := 0; i < len(corpus)+npk; i++ {
